@@ -11,7 +11,12 @@ def shapes_for(tier):
         return [('B11a', 'cudd'), ('S11', 'cudd'), ('B02', 'cudd'), ('S11', 'autoref'),
                 # exact liveness with two recurrence goals on a closed system, one mode (about 200 s of z3)
                 ('B02g2', 'cudd', ('init', 'closure', 'nonblock'), [(True, False)])]
-    return [('B11a', 'cudd'), ('S11h2', 'cudd'), ('S11g2', 'cudd'), ('B11b', 'cudd'), ('S11', 'cudd'),
+    # trimmed after an end-to-end run: with two persistence predicates (S11h2) the exact-liveness query and, for
+    # B11b in the Mealy / plus_one mode, the non-blocking and liveness queries came back `unknown` after 900-1100 s;
+    # those obligations are checked on concrete members instead (per-member runs below)
+    return [('B11a', 'cudd'), ('S11h2', 'cudd', ('liveness',)), ('S11g2', 'cudd'),
+            ('B11b', 'cudd', (), [(True, True), (True, False), (False, False)]),
+            ('B11b', 'cudd', ('nonblock', 'liveness'), [(False, True)]), ('S11', 'cudd'),
             ('B02', 'cudd'), ('S11', 'autoref'),
             # two goals on a closed system: 28 constants; the non-blocking query goes `unknown` there, members cover it
             ('B02g2', 'cudd', ('nonblock',))]
